@@ -315,6 +315,17 @@ def logClassOut : LogClass → String
   | .variation => "variation" | .attrMissing => "attr-missing" | .attrInvalid => "attr-invalid"
   | .rollout => "rollout" | .prereqCycle => "prereq-cycle" | .segCycle => "seg-cycle"
 
+/-- What a log line must mention besides the flag key: the operands of the problem ("d:" = a decimal
+number, "q:" = a string, which Go prints with %q). -/
+def errOperands : EvalErr → List String
+  | .badVariation i => ["d:" ++ toString i]
+  | .emptyAttr => []
+  | .badAttrRef s => ["q:" ++ s]
+  | .emptyRollout => []
+  | .circularPrereq k => ["q:" ++ k]
+  | .circularSegment k => ["q:" ++ k]
+  | .malformedSegment k inner => ("q:" ++ k) :: errOperands inner
+
 def obsOut (o : Obs) : Json :=
   Json.mkObj [
     ("outcome", match o.outcome with | .done => "done" | .outOfFuel => "oof"),
@@ -322,6 +333,7 @@ def obsOut (o : Obs) : Json :=
     ("events", Json.arr (o.events.map fun e => Json.mkObj [("target", e.targetKey), ("prereq", e.prereqKey),
         ("version", e.prereqVersion), ("result", resultOut e.result), ("excl", e.excludeFromSummaries)]).toArray),
     ("logs", Json.arr (o.logs.map fun l => Json.arr #[Json.str l.flagKey, Json.str (logClassOut l.err.logClass)]).toArray),
+    ("logOps", Json.arr (o.logs.map fun l => strsOut (errOperands l.err)).toArray),
     ("flagLookups", strsOut o.flagLookups), ("segLookups", strsOut o.segLookups),
     ("bsQueries", strsOut o.bsQueries),
     ("memChecks", Json.arr (o.memChecks.map fun (k, r) => Json.arr #[Json.str k, Json.str r]).toArray)]
